@@ -10,7 +10,10 @@ class PseudoNetCDFVariable(np.ndarray):
     interface, but unlike that type, provides a contructor for variables
     that could be used without adding it to the parent file
     """
-    __array_priority__ = 10000000.
+    # above plain arrays, below numpy masked arrays (15): in arithmetic
+    # with a masked array the masked operand decides the result type, so
+    # that its mask is kept whichever side it stands on
+    __array_priority__ = 10.
 
     @classmethod
     def from_array(cls, key, arr, dims=None, **attrs):
